@@ -496,3 +496,59 @@ func C03_Layout() {
 	}
 	sameTree("C03/layout", src, ref)
 }
+
+var _ = reg("C03_BareKeys", C03_BareKeys)
+
+// continuation characters of identifiers outside ASCII, one or more per
+// general category of XID_Continue (Ll Lu Lo Lm Nl Mn Mc Nd Pc and
+// Other_ID_Continue), BMP and supplementary
+var identContinue = []rune{
+	0x00E9, 0x0394, 0x4E2D, 0x02B0, 0x2160, 0x0301, 0x0E37, 0x093E, 0x0BC6, 0x0663, 0xFF11, 0x203F, 0x2040, 0xFE33,
+	0x00B7, 0x0387, 0x1369, 0x19DA, 0x1D7CE, 0x1E8D0, 0x10400, 0x20000, 0xE0100, 0x1D165,
+}
+
+// C03_BareKeys: a member key spelt bare, quoted and with a \u{…} escape
+// denotes the same path, for identifier characters outside ASCII in second
+// and later positions (every category of XID_Continue by sample).
+func C03_BareKeys() {
+	r := identContinue[nd.Choice(len(identContinue))]
+	pre := []string{"a", "é", "a1", "_"}[nd.Choice(4)]
+	suf := []string{"", "b"}[nd.Choice(2)]
+	key := pre + string(r) + suf
+	tag := "C03/bare-key"
+	q, qerr := path.Parse("$.\"" + key + "\"")
+	nd.Assert(qerr == nil, tag+"/quoted-rejected")
+	if qerr != nil {
+		return
+	}
+	b, berr := path.Parse("$." + key)
+	nd.Assert(berr == nil, tag+"/bare-rejected")
+	if berr == nil {
+		nd.Assert(b.String() == q.String(), tag+"/bare-differs-from-quoted")
+	}
+	hex := "0123456789abcdef"
+	esc := ""
+	for x, started := uint32(r), false; ; {
+		// most significant nibble first
+		for sh := 20; sh >= 0; sh -= 4 {
+			n := (x >> uint(sh)) & 0xF
+			if n != 0 || started || sh == 0 {
+				esc += string(hex[n])
+				started = true
+			}
+		}
+		break
+	}
+	e, eerr := path.Parse("$." + pre + "\\u{" + esc + "}" + suf)
+	nd.Assert(eerr == nil, tag+"/escaped-rejected")
+	if eerr == nil {
+		nd.Assert(e.String() == q.String(), tag+"/escaped-differs-from-quoted")
+	}
+	// and as a variable name
+	v, verr := path.Parse("$" + key)
+	vq, vqerr := path.Parse("$\"" + key + "\"")
+	nd.Assert(verr == nil && vqerr == nil, tag+"/variable-rejected")
+	if verr == nil && vqerr == nil {
+		nd.Assert(v.String() == vq.String(), tag+"/variable-differs-from-quoted")
+	}
+}
